@@ -226,3 +226,7 @@ func VxNote(s string) {}
 
 func VxTimeIsZero(t time.Time) bool { return t.IsZero() }
 func VxTimeNano(t time.Time) int64  { return t.UnixNano() }
+
+// VxSpawned: number of goroutines the code under test has started so far
+// (symbolic side: counted `go` statements; native side: the model's value).
+func VxSpawned() int { return int(VxRT.next("vx.spawned")) }
